@@ -27,7 +27,7 @@ def b_int(x):
 
 def smax(*xs):
     from .world import Stub
-    xs = [z3.Real(x._name) if isinstance(x, Stub) else x for x in xs]
+    xs = [x.as_real() if isinstance(x, Stub) else x for x in xs]
     if not any(is_symt(x) for x in xs): return max(xs)
     out = to_z3(xs[0])
     for x in xs[1:]:
@@ -55,7 +55,12 @@ class Interp:
         elif isinstance(s, ast.Expr):
             self.expr(s.value, env)
         elif isinstance(s, ast.For):
+            rec = self.env.get("__rec__")
+            if rec is not None and not CTX.pc:
+                rec.log("__for__", None, (s.lineno,), {})
             it = self.expr(s.iter, env)
+            if not hasattr(it, "items"):
+                raise ModelError("for loop over a non-fiber (%s)" % type(it).__name__)
             for g, c, p in it.items():
                 if g is False: continue
                 CTX.pc.append(g)
@@ -113,10 +118,11 @@ class Interp:
         if isinstance(e, ast.Tuple): return tuple(self.expr(x, env) for x in e.elts)
         if isinstance(e, ast.List): return [self.expr(x, env) for x in e.elts]
         if isinstance(e, ast.Dict):
-            if not e.keys:
-                from .world import SymDict
-                return SymDict()
-            return {self.expr(k, env): self.expr(v, env) for k, v in zip(e.keys, e.values)}
+            from .world import SymDict
+            d = SymDict()
+            for k, v in zip(e.keys, e.values):
+                d[self.expr(k, env)] = self.expr(v, env)
+            return d
         if isinstance(e, ast.Lambda): return Closure(self, e, env)
         if isinstance(e, ast.Attribute):
             obj = self.expr(e.value, env)
@@ -146,8 +152,8 @@ class Interp:
         raise NotModelled("expr %s" % type(e).__name__)
     def binop(self, op, a, b):
         from .world import Stub
-        if isinstance(a, Stub): a = z3.Real(a._name)
-        if isinstance(b, Stub): b = z3.Real(b._name)
+        if isinstance(a, Stub): a = a.as_real()
+        if isinstance(b, Stub): b = b.as_real()
         if isinstance(op, ast.LShift): return a << b
         if isinstance(op, ast.BitAnd): return a & b
         if isinstance(op, ast.BitOr): return a | b
